@@ -24,11 +24,6 @@ func NewMemoryHeightIterator(dataset map[string]string, start string, end string
 			return &MemoryHeightIterator{endIdx: -1, startIdx: 1}
 		}
 	}
-	if start > end {
-		tmp := start
-		start = end
-		end = tmp
-	}
 	if len(sortedKeys) == 0 {
 		sortedKeys = make([]string, 0, len(dataset))
 		for k, _ := range dataset {
@@ -36,21 +31,15 @@ func NewMemoryHeightIterator(dataset map[string]string, start string, end string
 		}
 		sort.Strings(sortedKeys)
 	}
+	// startIdx is the first key >= start (start is inclusive, "" means unbounded)
 	startIdx := 0
-	if start != "" { // this is a risky assumption -- what's the diff between string([]bytes{}) and (string[]bytes(nil)) ? those are considered smallest and largest by iavl.
-		for ; startIdx < len(sortedKeys)-1; startIdx++ {
-			if sortedKeys[startIdx] >= start {
-				break
-			}
-		}
+	if start != "" {
+		startIdx = sort.SearchStrings(sortedKeys, start)
 	}
+	// endIdx is the last key < end (end is exclusive, "" means unbounded)
 	endIdx := len(sortedKeys) - 1
 	if end != "" {
-		for ; endIdx > 0 && endIdx > startIdx; endIdx-- {
-			if sortedKeys[endIdx] <= end {
-				break
-			}
-		}
+		endIdx = sort.SearchStrings(sortedKeys, end) - 1
 	}
 	curIdx := startIdx
 	if !ascending {
@@ -78,14 +67,11 @@ func (m *MemoryHeightIterator) Domain() (start []byte, end []byte) {
 }
 
 func (m *MemoryHeightIterator) Valid() bool {
-	if m.endIdx < m.startIdx || m.curIdx > m.endIdx {
-		return false
-	}
-	if (m.end != "" && m.sortedKeys[m.curIdx] >= m.end) || (m.start != "" && m.sortedKeys[m.curIdx] < m.start) {
-		return false
-	}
 	if m.sortedKeys == nil || m.dataset == nil {
 		return false // we closed!!
+	}
+	if m.endIdx < m.startIdx || m.curIdx > m.endIdx || m.curIdx < m.startIdx {
+		return false
 	}
 	if m.curIdx < 0 || m.curIdx > len(m.sortedKeys)-1 {
 		return false // out of range!
